@@ -5,12 +5,19 @@ Cases are
       hierarchical edit script applied to the copy with the real add_/remove_/set_ methods;
   (kind, pair): two independently built slivers over the same name pools (same name with another type, None against empty
       *Info, renamed children - what an edit script on a copy cannot produce);
-  (topo, init, ops): an ExperimentTopology built and edited through the user API, the node's deep sliver
-      (graph_model.build_deep_node_sliver) taken before and after the edits.
+  (topo, init, ops[, view]): an ExperimentTopology built and edited through the user API - incl. REMOVING an element and ADDING it
+      again under its old name (fresh node_id; component, node-level service, sub-interface, port of a bridge), with and without
+      property changes - and a library-built deep sliver taken before and after the edits: the node (build_deep_node_sliver), the
+      service of one of its SmartNICs, one of its ports, a topology-level L2Bridge (`view`; all three diff methods).
+  Both sides of a pair carry node_ids: none / independent on either side / equal under equal paths with some children re-created.
+  User data values are texts or Python objects ({"py": literal}: int / float / bool keys, tuples) - every construction path of
+  JSONData; (value, lit, cls): one value built through every path (object, its JSON text, rewritten text, string-keyed object,
+  deepcopy, pickle), all pairs must be equal and hash alike.
 The three real `diff` methods are run old->new and new->old.
 
 translator: gen/diffcfg.py -> Generated/DiffCfg.lean (what prop_diff compares, which child dictionaries every diff compares and
-  how, the kinds it descends below, the final test, the fields of the result, the flag values, the value classes' __eq__ idioms).
+  how, the kinds it descends below, the final test, the fields of the result, the flag values, the value classes' __eq__ idioms;
+  _dict_diff / _dict_common run on opaque values: selection by dictionary key alone -> `dictKeyOnly`).
 correspondence: structural specs of both real slivers (read back from the objects, property values canonicalised without
   going through the code's __eq__) -> the table-driven Lean model (`nodeDiffC` ... of `Model/Diff.lean` on the generated table);
   the Lean edit-script semantics against the real mutators; the value classes' own ==/!= against `Model/DiffVal.lean` (and
@@ -52,6 +59,8 @@ THEOREMS = [P + t for t in (
     # corner cases and hypotheses
     "first_sub_interface_flagged", "rename_reported_as_remove_and_add", "none_info_is_empty_info",
     "dict_keys_unique_invariant", "pair_ok_of_ok", "node_diff_kind_collision_counterexample",
+    # _dict_diff / _dict_common go by key alone: nothing stored under a key decides, no child drops out (C17-r4-1)
+    "dict_select_by_key_only", "dict_partition_by_key",
     # the value classes' own equality (Labels / Capacities / JSONData.__eq__ as written)
     "fields_eq_is_dict_equality", "fields_eq_refl", "user_data_eq_equivalence", "user_data_member_order_irrelevant",
     "user_data_types_distinct", "prop_diff_on_values", "prop_diff_on_values_self")]
@@ -73,6 +82,14 @@ TRUSTED_BASE = [
     "the edit-script semantics of the theorems (Lemmas/C17Script.lean: applyNode/applySvc/applyIface, expNode/expSvc/expIface) are "
     "hand-written; checked differentially: `apply` against the real add_*/remove_*/set_* calls on a deep copy, `expect` against "
     "what the real diff returns for that copy",
+    "_dict_diff / _dict_common are primitives of the symbolic evaluator; that they select by dictionary key alone (never by what is "
+    "stored under the key: node_id, the slivers' weak __eq__) is established by running the two functions on opaque values that record "
+    "any look at them (`dictKeyOnly`, part of `Cfg.Good`); `dict_partition_by_key` / `dict_select_by_key_only` are proved of the model's "
+    "key-only selection; the model's slivers carry no node_id (the wire form drops it) - pairs with independent / re-created node_ids "
+    "and library-built remove + re-add histories are compared differentially",
+    "JSONData's constructor (encoding of a Python object: non-string keys -> strings, tuples -> arrays) is not modelled: the model "
+    "starts from the stored text; instances of one value built through every construction path are compared pairwise with the real == "
+    "/ != / hash (oracle) and against the model (`veq`, `canon` of object-built instances)",
     "Python dict/set semantics (keys unique, set of slivers keyed by (resource_name, node_id)) modelled by name-keyed lists; "
     "`dict_keys_unique_invariant` proves the Nodup-names hypothesis for every add_/remove_ history (`dictRun`, checked against the "
     "real InterfaceInfo); output order is not compared (sets / arbitrary set iteration order)",
@@ -97,7 +114,10 @@ RULE = ("node / service / interface sliver trees (<=4 components of every Compon
         "to the old value; equal-valued user data set on both sides); independently generated pairs over shared name pools (kind "
         "collisions, None / empty / filled *Info on either side, renames); topologies edited through the user API (add/remove "
         "component incl. re-adding a removed name as another model, node-level services, first/second/last sub-interface, property "
-        "changes) with deep slivers before/after; plus a malformed stream (SmartNIC without services, sub-interfaces under non-dedicated "
+        "changes; remove + add again under the old name at every level, with / without property changes; views: node, SmartNIC service, "
+        "port, topology-level bridge with ports disconnected / re-connected) with deep slivers before/after; node_ids on both sides of "
+        "pairs (none / independent / re-created children); user data from texts and from Python objects (int/float/bool keys, tuples) "
+        "through every construction path; plus a malformed stream (SmartNIC without services, sub-interfaces under non-dedicated "
         "ports); value pairs (Labels/Capacities/UserData from pools, random JSON with shuffled members and bool/int/float look-alikes, "
         "instances lacking a field); add_/remove_ histories on an InterfaceInfo. non-trivial = at least one edit / a pair / a topology / "
         "two different values; distinct by canonical request")
@@ -1683,6 +1703,22 @@ def gen_values(rng, n):
     for a in upool:
         for b in upool:
             out.append(("U", None if a is None else r.UserData(a), None if b is None else r.UserData(b), True))
+    # Labels / Capacities through their construction paths as well: keyword arguments, from_json(to_json()), JSONField.update, deep copy,
+    # pickle - all pairs (judged by the field dictionaries the instances really have)
+
+    def variants(o):
+        vs = [o]
+        for f in (lambda: type(o).from_json(o.to_json()), lambda: type(o).update(o), lambda: copy.deepcopy(o), lambda: pickle.loads(pickle.dumps(o))):
+            try:
+                vs.append(f())
+            except Exception:
+                pass
+        return vs
+    for pool, mk, tag in ((lpool, lab, "L"), (cpool, cap, "C")):
+        for d in pool:
+            if d is not None:
+                for a, b in itertools.product(variants(mk(d)), repeat=2):
+                    out.append((tag, a, b, True))
     # one value through every construction path (an object with non-string keys / tuples, the JSON text the library writes for it,
     # that text re-written, the string-keyed object, a deep copy and a pickle of the object-built instance): every pair of them must
     # be equal, in every JSONData class (C17-r4-2: a canonical text cached per construction path)
@@ -1776,6 +1812,9 @@ def value_oracle(ctx, res):
     """equal-valued user / measurement / layout data compare equal (and hash alike) whatever way the two instances were built"""
     r = R.load()
     rng = ctx.sub_rng("value-oracle")
+    for c in load_corpus(values=True):
+        res.evaluations += 1
+        check_value_case(c, res)
     lits = UD_OBJ + [repr(g_pyobj(rng, 3)) for _ in range(ctx.scale(40, 600))]
     for lit in lits:
         for cls in ("UserData", "MeasurementData", "LayoutData"):
@@ -1976,7 +2015,12 @@ def count_edits(sc):
     return n
 
 
-def load_corpus():
+def load_corpus(values=False):
+    """sliver cases of the corpus (values=True: the value cases, run by `value_oracle`)"""
+    return [c for c in _load_corpus() if (c.get("kind") == "value") == values]
+
+
+def _load_corpus():
     d = os.path.join(CORPUS_DIR, ID)
     out = []
     if os.path.isdir(d):
